@@ -29,6 +29,8 @@ var slotDefs = []slotDef{
 	{"greet", "String", nil, "Greet"}, {"flip", "Boolean", []*hx.Arg{boolArg()}, "Flip"},
 	{"swap", "String", []*hx.Arg{strArg(), boolArg()}, "Swap"}, {"peer", "C", nil, "Peer"}, {"peers", "[C]", nil, "Peers"}, {"count", "Int", nil, "Count"},
 	{"risky", "String", []*hx.Arg{strArg()}, "Risky"},
+	// a method whose Go name differs from the field name by more than the case of its first letter
+	{"htmlid", "String", nil, "HTMLID"},
 	{"vals", "[V]", nil, "Vals"}, {"val", "V", nil, "Val"},
 }
 
